@@ -60,7 +60,9 @@ TYPE_POOL = ["ndarray", "Tensor", "list", "tuple", "dict", "set", "str", "int", 
 C14_NAMES = ["a", "b", "c", "data", "_p", "x1", "info", "child", "p", "arr", "t", "k-1", "a.b",
              "ab", "arr2", "_p_", ".h", "fa", "A", "_a",
              # not in Unicode normal form (NFC/NFKC folding would change them), with their folded twins
-             "\u00b5_abs", "\u03bc_abs", "\u212b_px", "\u00c5_px", "cafe\u0301", "caf\u00e9", "\ufb01le"]
+             "\u00b5_abs", "\u03bc_abs", "\u212b_px", "\u00c5_px", "cafe\u0301", "caf\u00e9", "\ufb01le",
+             # class-private spellings and the name-mangled forms Python stores for them
+             "__x", "_Plain__x", "_Node__x", "_Leaf__x", "_Inner__x", "_Other__x", "__x__"]
 
 
 def _types(names):
